@@ -165,6 +165,9 @@ func cmdGen(args []string) {
 			if vc.err != nil {
 				bad++
 				reasons[vc.err.Error()]++
+				if os.Getenv("VC_TRACE") != "" {
+					fmt.Println("UNSUPPORTED", k, vc.err)
+				}
 				return
 			}
 			ok++
